@@ -71,7 +71,7 @@ def coord(ctx):
 
 
 @rule('SA-COORD.refresh')
-@props('C02', 'C07', 'C17')
+@props('C01', 'C02', 'C07', 'C17')
 def refresh(ctx):
     """The coordinate cache is refreshed totally: the loop that renumbers the children of a directory
     (the only writer of extents_to_here / offset_to_here / index_in_parent) assigns all three on every
